@@ -37,6 +37,22 @@ MISSED = {
     "C12-6": "the peer announced itself once; instances with an earlier, more capable I-Am from the same device added",
     "C14-6": "every deferred function was a distinct callable; `deferred_repeat` (equal function/argument pairs handed in "
              "repeatedly) added",
+    "C16-4": "two subscribers were always subscribed indefinite-first; a timed-before-indefinite instance added",
+    "C16-6": "quick had no four-step history drift / renewal / step on one subscriber; `iv,s-W-s-W` added",
+    "C12-7": "the server never held a record of the client; instances in which the client once announced another "
+             "segmentation capability added",
+    "C12-8": "a bacpypes peer grants the same window in every ack; `window_follow` (bare station granting a symbolic window per "
+             "ack) added",
+    "C12-9": "the peer never asked us anything before our long request; `peer_asks_first` option added",
+    "C04-9": "the transaction timers were alone in the scheduler; `among_timers` (unrelated far and near timers, an answering "
+             "and a silent peer) added",
+    "C06-8": "quick had at most two routers between any two stations; `line4, ends-only` added",
+    "C06-9": "stations never addressed their own network by its number; symbolic choice added to `route_scn`",
+    "C11-8": "no stack was client and server of the same peer at once; `cross_roles` added",
+    "C11-9": "all peers were local stations; `demux_routed` (same MAC and invoke ID on the local and a remote network) added",
+    "C14-7": "recurring tasks were installed on the 1/8 s grid only; `recurring_near_slot` added",
+    "C14-8": "deferred callables were all plain closures; `deferred_kinds` (partial, callable instance, bound method, lambda) added",
+    "C14-9": "due times were at least 1/8 s apart; `sched_close` (tasks 0.4 ms apart, clock read at firing) added",
     "C10-5": "no frame carried a source network; `routed_noise` (garbage claiming a remote source, then a relayed valid request) added",
 }
 
